@@ -434,6 +434,12 @@ def not_found(prog, rep):
 
                     def _is_rowcount_miss(e):
                         """<x>.rowcount != 1 / == 0 / < 1, through single-assignment locals -> polarity of 'missing' or None"""
+                        if isinstance(e, ast.UnaryOp) and isinstance(e.op, ast.Not):
+                            r_ = _is_rowcount_miss(e.operand)
+                            return None if r_ is None else (not r_)
+                        if isinstance(e, ast.Name):
+                            d_ = single_def(fi, e.id)
+                            return _is_rowcount_miss(d_) if isinstance(d_, (ast.Compare, ast.UnaryOp)) else None
                         if isinstance(e, ast.Compare) and len(e.ops) == 1 and isinstance(e.comparators[0], ast.Constant):
                             l = resolve(e.left, fi)
                             if isinstance(l, ast.Attribute) and l.attr == "rowcount":
@@ -454,7 +460,19 @@ def not_found(prog, rep):
                     why = "no `rowcount != 1 -> raise ValueError` on every path"
                 elif m == "get_metadata":
                     tests = [n for n in g.nodes if n.kind == "branch" and norm(n.ast) in ("row is not None", "row is None", "row")]
-                    if tests and raises:
+                    # a local that is None exactly where the row is: `x = None` under `row is None`, tested later
+                    carriers = set()
+                    for t_ in list(tests):
+                        for a_ in walk_own(fi.node):
+                            if isinstance(a_, ast.Assign) and len(a_.targets) == 1 and isinstance(a_.targets[0], ast.Name) and isinstance(a_.value, ast.Constant) and a_.value.value is None and isinstance(parent(a_), ast.If) and parent(a_).test is t_.ast:
+                                carriers.add(a_.targets[0].id)
+                    ctests = [n for n in g.nodes if n.kind == "branch" and any(norm(n.ast) in (f"{c_} is None", f"{c_} is not None", c_, f"not {c_}") for c_ in carriers)]
+                    if ctests and raises:
+                        ct = ctests[-1]
+                        pol_missing = norm(ct.ast).endswith("is None") or norm(ct.ast).startswith("not ")
+                        miss = [v for v, lab in g.succ[ct.id] if lab and lab[2] is pol_missing]
+                        ok = all(g.exit not in g.reach_avoiding([v], include_start=True) for v in miss) and bool(miss)
+                    elif tests and raises:
                         pol_missing = norm(tests[0].ast) == "row is None"
                         miss = [v for v, lab in g.succ[tests[0].id] if lab and lab[2] is pol_missing]
                         ok = all(g.exit not in g.reach_avoiding([v], include_start=True) for v in miss) and bool(miss)
